@@ -428,6 +428,9 @@ def check_grad_scaling(ctx: Ctx) -> None:
         node = rets[0] if rets else f
         for r in rets:
             v = r.value
+            if isinstance(v, ast.Name):
+                ds_ = [s_.value for s_ in stmts_of(f) if isinstance(s_, ast.Assign) and any(dotted(t_) == v.id for t_ in s_.targets)]
+                v = ds_[0] if len(ds_) == 1 else v
             if isinstance(v, ast.Call) and isinstance(v.func, ast.Attribute) and v.func.attr == callee and dotted(v.func.value) == "self":
                 mlb = arg_or_kw(v, 1, "minus_lb")
                 first = v.args[0] if v.args else None
